@@ -178,7 +178,7 @@ impl CutCfg {
             max_depth: 1 + r.usize(3),
             subdirs: r.chance(1, 2),
             trailing_newline: r.chance(3, 4),
-            crlf: false,
+            crlf: r.chance(1, 12),
         }
     }
 }
@@ -222,6 +222,8 @@ impl Cutter<'_> {
                 };
                 let child = format!("{}{}inc{}.s", child_dir, if child_dir.is_empty() { "" } else { "/" }, self.n);
                 let rel = relative(&dir, &child);
+                // the same file can be spelled in more than one way
+                let rel = if self.r.chance(1, 8) { format!("./{rel}") } else { rel };
                 let indent = if self.r.chance(1, 2) { "    " } else { "" };
                 out.push(format!("{indent}.include \"{rel}\""));
                 let chunk: Vec<String> = lines[i..i + len].to_vec();
@@ -261,16 +263,21 @@ pub struct PastedLine {
 /// Reference model of `.include`: textual inclusion. `failed` lists (file, zero-based line) of
 /// directives whose include is modelled as failing: they paste as an empty line.
 pub fn paste(world: &World, failed: &[(String, usize)]) -> Vec<PastedLine> {
-    fn go(world: &World, path: &str, failed: &[(String, usize)], out: &mut Vec<PastedLine>, depth: usize) {
+    // An include of a file that is already being pasted (a cycle) is modelled as failing: textual
+    // inclusion has no finite meaning there, and the analyzer refuses it the same way. The size
+    // guard keeps a diamond-shaped tree (every file including the next one several times) from
+    // growing exponentially; callers treat a world that large as "too large" anyway.
+    fn go(world: &World, path: &str, failed: &[(String, usize)], out: &mut Vec<PastedLine>, ancestors: &mut Vec<String>) {
         let Some(text) = world.files.get(path) else { return };
         let lines: Vec<&str> = split_lines(text);
+        ancestors.push(path.to_string());
         for (i, l) in lines.iter().enumerate() {
             if let Some(rel) = parse_include(l) {
                 let is_failed = failed.iter().any(|(f, ln)| f == path && *ln == i);
                 let target = resolve(dir_of(path), rel);
                 match target {
-                    Some(t) if !is_failed && world.files.contains_key(&t) && depth < 16 => {
-                        go(world, &t, failed, out, depth + 1);
+                    Some(t) if !is_failed && world.files.contains_key(&t) && !ancestors.contains(&t) && ancestors.len() < 16 && out.len() < 200_000 => {
+                        go(world, &t, failed, out, ancestors);
                     }
                     _ => out.push(PastedLine { text: String::new(), file: path.to_string(), line: i }),
                 }
@@ -278,9 +285,10 @@ pub fn paste(world: &World, failed: &[(String, usize)]) -> Vec<PastedLine> {
                 out.push(PastedLine { text: (*l).to_string(), file: path.to_string(), line: i });
             }
         }
+        ancestors.pop();
     }
     let mut out = Vec::new();
-    go(world, &world.base, failed, &mut out, 0);
+    go(world, &world.base, failed, &mut out, &mut Vec::new());
     out
 }
 
